@@ -270,6 +270,30 @@ func (g *Gen) dupRel(names []int, path string) string {
 	return ""
 }
 
+// superRel: occasionally (ID-based path only) a relation target for a component that is NOT in the list —
+// neither added nor, mostly, a component of the entity; sometimes not even a relation component. Such a
+// call must be rejected without any effect (the N3 family, §7 D24).
+func (g *Gen) superRel(names []int, path string) string {
+	if path != "u" || !g.chance(0.03) {
+		return ""
+	}
+	in := map[int]bool{}
+	for _, n := range names {
+		in[n] = true
+	}
+	var cand []int
+	for _, n := range g.regNames() {
+		if !in[n] && (g.isRel(n) || g.chance(0.2)) {
+			cand = append(cand, n)
+		}
+	}
+	if len(cand) == 0 {
+		return ""
+	}
+	g.RelTargets["superfluous"]++
+	return fmt.Sprintf(" r%d>%s", cand[g.pick(len(cand))], g.pickTarget(0.1))
+}
+
 // dupComp: occasionally the same component ID twice in one list (ID-based path only; the typed
 // API cannot express it). Every such call must be rejected: "already has / added twice" for
 // additions, "does not have" for the second removal.
@@ -643,7 +667,7 @@ func (g *Gen) opNew() bool {
 	cs = g.tupleOrder(cs)
 	p := g.path(cs, true)
 	cs = g.dupComp(cs, p)
-	g.emit(fmt.Sprintf("new e%d %s %s%s", l, p, g.compTokens(cs, true, 0.02, 0.03), g.dupRel(cs, p)))
+	g.emit(fmt.Sprintf("new e%d %s %s%s", l, p, g.compTokens(cs, true, 0.02, 0.03), g.dupRel(cs, p)+g.superRel(cs, p)))
 	return true
 }
 
@@ -674,7 +698,7 @@ func (g *Gen) opAdd() bool {
 		p = "u"
 	}
 	cs = g.dupComp(cs, p)
-	g.emit(strings.TrimSpace(fmt.Sprintf("add %s %s %s%s", el, p, g.compTokens(cs, true, 0.02, 0.03), g.dupRel(cs, p))))
+	g.emit(strings.TrimSpace(fmt.Sprintf("add %s %s %s%s", el, p, g.compTokens(cs, true, 0.02, 0.03), g.dupRel(cs, p)+g.superRel(cs, p))))
 	return true
 }
 
@@ -749,7 +773,7 @@ func (g *Gen) opXchg() bool {
 	for _, n := range rem {
 		parts = append(parts, fmt.Sprintf("-c%d", n))
 	}
-	g.emit(strings.TrimSpace(fmt.Sprintf("xchg %s u %s", el, strings.Join(parts, " "))))
+	g.emit(strings.TrimSpace(fmt.Sprintf("xchg %s u %s%s", el, strings.Join(parts, " "), g.superRel(add, "u"))))
 	return true
 }
 
@@ -895,7 +919,7 @@ func (g *Gen) opSetRel() bool {
 		}
 		parts = append(parts, fmt.Sprintf("c%d>%s", n, tgt))
 	}
-	g.emit(fmt.Sprintf("setrel %s %s %s%s%s", el, p, strings.Join(parts, " "), g.dupRel(cs, p), mapperOpt))
+	g.emit(fmt.Sprintf("setrel %s %s %s%s%s", el, p, strings.Join(parts, " "), g.dupRel(cs, p)+g.superRel(cs, p), mapperOpt))
 	return true
 }
 
